@@ -96,6 +96,33 @@ CHECKS = {
         'points per operation are exhaustive.',
         'DESIGN.md 3/C15',
     ),
+    'C13': (
+        'exhaustive association-model table vs own transcription of Core Table 2.8 + generated end-to-end pairings with emulated LTK request',
+        'exploration',
+        'Part 1 enumerates all 3600 cells (5x5 IO x SC x MITM x OOB per side) through real initiator/responder '
+        'smp.Session objects and compares method and display/input roles with the harness transcription of the '
+        'Core tables (exhaustive). Part 2 runs generated pairings between two real Devices (IO, SC, MITM, bonding, '
+        'key-distribution masks, who starts, user answers right/wrong/none, one corrupted SMP PDU, HCI delays, '
+        'reconnection in same and swapped roles) with a per-case DRBG: both sides end the same way and nothing hangs, '
+        'the key in the central\'s LE Enable Encryption equals what the peripheral returns for the emulated LE Long '
+        'Term Key Request (while pairing and on reconnection), authenticated flags iff a MITM model ran, failures '
+        'leave the key stores byte-identical, key distribution = intersection.',
+        'Trusted: the harness transcription of Vol 3 Part H Tables 2.6-2.8; the LTK-request emulation (the virtual '
+        'controller never asks the peripheral host for the key); LE only (no CTKD).',
+        'DESIGN.md 3/C13',
+    ),
+    'C18': (
+        'round-trip with cache-defeating rebuild over run-time registries + hand-written reference encoders + parse/construct histories',
+        'exploration',
+        'Every class of the L2CAP/ATT/SMP/SDP/AVDTP/AVRCP/AVC registries and the typed advertising-data classes '
+        '(enumerated at run time; exit 2 if one is not covered) plus ERTM control fields, PSM, SDP data elements, '
+        'RFCOMM frames/MCC, service capabilities, AVCTP, RTP, AdvertisingData, Address, UUID: value->bytes->parse gives '
+        'an equal value, parsed spec-conformant bytes re-serialise identically from a fresh rebuilt object, at every '
+        'length-encoding boundary; operation histories over the process-wide UUID registry. A deviation from the '
+        'harness reference layout is a violation only when Bumble is not self-consistent (otherwise recorded as a note).',
+        'Trusted: the harness reference encoders/decoders and 54 golden vectors written from the specifications.',
+        'DESIGN.md 3/C18',
+    ),
 }
 
 NOT_YET = 'check not built yet in this session (planned in DESIGN.md section 3)'
